@@ -104,9 +104,13 @@ pub struct Style {
 	pub explicit_defaults: bool,
 	/// pad some varints with a redundant continuation byte (non-minimal but valid)
 	pub long_varints: bool,
+	/// also pad field keys and the tag ids inside the packed field
+	pub long_keys: bool,
+	/// feature fields as geometry, type, tags, id instead of id, tags, type, geometry
+	pub feature_reversed: bool,
 }
 
-pub const PLAIN: Style = Style { layer_order: 0, explicit_defaults: false, long_varints: false };
+pub const PLAIN: Style = Style { layer_order: 0, explicit_defaults: false, long_varints: false, long_keys: false, feature_reversed: false };
 
 // ---------------------------------------------------------------- protobuf writer
 
@@ -145,8 +149,15 @@ pub fn unzigzag(v: u64) -> i64 {
 fn key(out: &mut Vec<u8>, field: u32, wire: u8) {
 	put_varint(out, ((field as u64) << 3) | wire as u64);
 }
+fn key_st(out: &mut Vec<u8>, field: u32, wire: u8, st: &Style) {
+	if st.long_keys {
+		put_varint_long(out, ((field as u64) << 3) | wire as u64)
+	} else {
+		key(out, field, wire)
+	}
+}
 fn put_len(out: &mut Vec<u8>, field: u32, body: &[u8], st: &Style) {
-	key(out, field, 2);
+	key_st(out, field, 2, st);
 	if st.long_varints {
 		put_varint_long(out, body.len() as u64)
 	} else {
@@ -155,7 +166,7 @@ fn put_len(out: &mut Vec<u8>, field: u32, body: &[u8], st: &Style) {
 	out.extend_from_slice(body);
 }
 fn put_uint(out: &mut Vec<u8>, field: u32, v: u64, st: &Style) {
-	key(out, field, 0);
+	key_st(out, field, 0, st);
 	if st.long_varints {
 		put_varint_long(out, v)
 	} else {
@@ -184,22 +195,45 @@ pub fn encode_value(v: &IValue, st: &Style) -> Vec<u8> {
 }
 
 pub fn encode_feature(f: &IFeature, st: &Style) -> Vec<u8> {
-	let mut o = vec![];
-	if let Some(id) = f.id {
-		put_uint(&mut o, 1, id, st);
-	}
-	if !f.tags.is_empty() {
-		let mut p = vec![];
-		for t in &f.tags {
-			put_varint(&mut p, *t as u64);
+	let id = |o: &mut Vec<u8>| {
+		if let Some(id) = f.id {
+			put_uint(o, 1, id, st);
 		}
-		put_len(&mut o, 2, &p, st);
-	}
-	if let Some(t) = f.gtype {
-		put_uint(&mut o, 3, t as u64, st);
-	}
-	if let Some(g) = &f.geom {
-		put_len(&mut o, 4, g, st);
+	};
+	let tags = |o: &mut Vec<u8>| {
+		if !f.tags.is_empty() {
+			let mut p = vec![];
+			for t in &f.tags {
+				if st.long_keys {
+					put_varint_long(&mut p, *t as u64)
+				} else {
+					put_varint(&mut p, *t as u64)
+				}
+			}
+			put_len(o, 2, &p, st);
+		}
+	};
+	let gtype = |o: &mut Vec<u8>| {
+		if let Some(t) = f.gtype {
+			put_uint(o, 3, t as u64, st);
+		}
+	};
+	let geom = |o: &mut Vec<u8>| {
+		if let Some(g) = &f.geom {
+			put_len(o, 4, g, st);
+		}
+	};
+	let mut o = vec![];
+	if st.feature_reversed {
+		geom(&mut o);
+		gtype(&mut o);
+		tags(&mut o);
+		id(&mut o);
+	} else {
+		id(&mut o);
+		tags(&mut o);
+		gtype(&mut o);
+		geom(&mut o);
 	}
 	o
 }
@@ -688,12 +722,12 @@ pub fn gen_layer(rng: &mut Rng, o: &GenOpts, name: Vec<u8>) -> ILayer {
 		values,
 		extent: match rng.below(5) {
 			0 => Some(512),
-			1 => Some(*rng.pick(&[1u32, 256, 4095, 4096, 8192, u32::MAX])),
+			1 => Some(*rng.pick(&[0u32, 1, 256, 4095, 4096, 4097, 8192, u32::MAX - 1, u32::MAX])),
 			_ => None,
 		},
 		version: match rng.below(4) {
 			0 => Some(2),
-			1 => Some(*rng.pick(&[1u32, 2, 3])),
+			1 => Some(*rng.pick(&[0u32, 1, 2, 3, u32::MAX])),
 			_ => None,
 		},
 	}
@@ -715,5 +749,39 @@ pub fn gen_tile(rng: &mut Rng, o: &GenOpts, unique_names: bool) -> ITile {
 }
 
 pub fn gen_style(rng: &mut Rng) -> Style {
-	Style { layer_order: rng.below(3) as u8, explicit_defaults: rng.chance(1, 4), long_varints: rng.chance(1, 8) }
+	Style { layer_order: rng.below(3) as u8, explicit_defaults: rng.chance(1, 4), long_varints: rng.chance(1, 8), long_keys: rng.chance(1, 10), feature_reversed: rng.chance(1, 4) }
+}
+
+// ---------------------------------------------------------------- threshold sweeps (sizes at varint-width borders)
+
+/// layer whose name, one key, one string value and one geometry have exactly `len` bytes
+pub fn sized_strings_layer(len: usize) -> ILayer {
+	let s = |c: u8| vec![c; len];
+	ILayer {
+		name: s(b'n'),
+		features: vec![IFeature { id: Some(len as u64), tags: vec![0, 0, 1, 1], gtype: Some(1), geom: Some(s(9)) }],
+		keys: vec![s(b'k'), b"id".to_vec()],
+		values: vec![IValue::Str(s(b'v')), IValue::UInt(len as u64)],
+		extent: None,
+		version: None,
+	}
+}
+
+/// layer `name` with `n` keys `k<i>`, `n` values `UInt(i)` and `n` features (feature i: one pair (i, i));
+/// one more feature carries `pairs` tag pairs using the highest table indices
+pub fn sized_tables_layer(name: &str, n: usize, pairs: usize) -> ILayer {
+	let mut features: Vec<IFeature> = (0..n).map(|i| IFeature { id: Some(i as u64), tags: vec![i as u32, i as u32], gtype: Some(1), geom: Some(vec![9, 2, 2]) }).collect();
+	let pairs = pairs.min(n);
+	if pairs > 0 {
+		let tags: Vec<u32> = (n - pairs..n).flat_map(|i| [i as u32, (n - 1 - (i - (n - pairs))) as u32]).collect();
+		features.push(IFeature { id: None, tags, gtype: Some(3), geom: None });
+	}
+	ILayer {
+		name: name.as_bytes().to_vec(),
+		features,
+		keys: (0..n).map(|i| format!("k{i}").into_bytes()).collect(),
+		values: (0..n).map(|i| IValue::UInt(i as u64)).collect(),
+		extent: None,
+		version: None,
+	}
 }
